@@ -141,8 +141,7 @@ Example C17_mdcv_cll_hyp :
   mdcv_canonical (mkMdcv 65535 1 0 0 1 48026 0 0 4294967295 1) = true /\ cll_canonical (mkCll 1000 65535) = true.
 Proof. split; reflexivity. Qed.
 
-(* pass-through messages: whenever the decoder returns a message (it can also fail or index out of
-   range: C16), Payload() is the input and Size() its length *)
+(* pass-through messages: whenever the decoder returns a message (it can also return an error), Payload() is the input and Size() its length *)
 Theorem C17_passthrough :
   (forall pl m, decode_registered pl = Ok m -> pass_payload m = pl /\ pass_size m = lenN pl) /\
   (forall pl m, decode_unregistered pl = Ok m -> pass_payload m = pl /\ pass_size m = lenN pl) /\
